@@ -130,16 +130,16 @@ def parseAssignment (fuel : Nat) (ts : List Tk) : Option (Assignment × List Tk)
   | .ident "export" :: .ident n :: .other "ColonEquals" :: r =>
     match parseExpression fuel r with
     | some (e, r1) =>
-      match r1 with
-      | .other "Eol" :: r2 => some (⟨true, n, e⟩, r2)
-      | _ => none
+      match expectEol r1 with
+      | some r2 => some (⟨true, n, e⟩, r2)
+      | none => none
     | none => none
   | .ident n :: .other "ColonEquals" :: r =>
     match parseExpression fuel r with
     | some (e, r1) =>
-      match r1 with
-      | .other "Eol" :: r2 => some (⟨false, n, e⟩, r2)
-      | _ => none
+      match expectEol r1 with
+      | some r2 => some (⟨false, n, e⟩, r2)
+      | none => none
     | none => none
   | _ => none
 
@@ -172,9 +172,9 @@ def parseAlias (fuel : Nat) (ts : List Tk) : Option (Alias × List Tk) :=
   | .ident "alias" :: .ident n :: .other "ColonEquals" :: .ident t :: r =>
     match parsePath fuel r with
     | some (ps, r1) =>
-      match r1 with
-      | .other "Eol" :: r2 => some (⟨n, t, ps⟩, r2)
-      | _ => none
+      match expectEol r1 with
+      | some r2 => some (⟨n, t, ps⟩, r2)
+      | none => none
     | none => none
   | _ => none
 
